@@ -129,7 +129,8 @@ impl Add for I64 {
             (Num(lhs), Num(rhs)) => match lhs.checked_add(rhs) {
                 Some(n) => Num(n),
                 None => {
-                    if lhs > 0 && rhs > 0 || lhs < 0 && rhs < 0 {
+                    // overflow implies that both operands have the same sign
+                    if lhs > 0 {
                         PlusInf
                     } else {
                         MinusInf
@@ -153,7 +154,9 @@ impl Sub for I64 {
             (Num(lhs), Num(rhs)) => match lhs.checked_sub(rhs) {
                 Some(n) => Num(n),
                 None => {
-                    if lhs > 0 && rhs < 0 || lhs < 0 && rhs > 0 {
+                    // overflow implies `lhs >= 0 && rhs < 0` or
+                    // `lhs < 0 && rhs > 0`
+                    if rhs < 0 {
                         PlusInf
                     } else {
                         MinusInf
